@@ -676,6 +676,9 @@ where
             }
         }
 
+        // the channel is closed (unsubscribed or store stopped): release the subscriber once
+        subscriber.on_unsubscribe();
+
         #[cfg(dev)]
         eprintln!("store: {} channel thread done", _name);
     }
